@@ -113,18 +113,63 @@ Print Assumptions C08_get_defaults_shares_refuted.
    working on recreate_branches(cfg_obj).  The statement holds WITHOUT any guard: every parser, every
    heap (containers below tuples, sharing, cycles, Namespace arguments), every operation, every state
    of the globals, success or failure. *)
+Definition is_ok {A} (r : out A) : bool := match r with Ok _ _ => true | Err _ _ => false end.
 Theorem C08_fixed_frame :
   forall (p : parser) (h0 : heap) (o : op) (g : globals),
+    groups_guard h0 o = true ->
     firstn (length h0) (s_h (out_st (run_op_fixed p o (mkst h0 g)))) = h0.
 Proof. exact frame_fixed. Qed.
 Print Assumptions C08_fixed_frame.
 
 Theorem C08_fixed_frame_loc :
   forall (p : parser) (h0 : heap) (o : op) (g : globals) (l : nat) (c : cell),
-    nth_error h0 l = Some c ->
+    groups_guard h0 o = true -> nth_error h0 l = Some c ->
     nth_error (s_h (out_st (run_op_fixed p o (mkst h0 g)))) l = Some c.
 Proof. exact frame_fixed_loc. Qed.
 Print Assumptions C08_fixed_frame_loc.
+
+(* ---- class groups (round 6).  The operations now include instantiate_classes on a parser with class groups
+   (OInstantiateGroups a gs: after the typed components every group stores a NEW instance under its key of the
+   namespace strip_meta returned).  `groups_guard` (= finding class 4 of the judge, open finding
+   empty-config-not-copied) excludes exactly: an EMPTY configuration object and at least one group - there
+   strip_meta (`if cfg:`) hands the caller's own namespace on and the instances are written into it.  With
+   fixes/C08-empty-config-not-copied.patch (strip_meta always copies; run_op_fixed3) no guard is left. *)
+Theorem C08_fixed3_frame :
+  forall (p : parser) (h0 : heap) (o : op) (g : globals),
+    firstn (length h0) (s_h (out_st (run_op_fixed3 p o (mkst h0 g)))) = h0.
+Proof. exact frame_fixed3. Qed.
+Print Assumptions C08_fixed3_frame.
+
+Theorem C08_fixed3_frame_loc :
+  forall (p : parser) (h0 : heap) (o : op) (g : globals) (l : nat) (c : cell),
+    nth_error h0 l = Some c ->
+    nth_error (s_h (out_st (run_op_fixed3 p o (mkst h0 g)))) l = Some c.
+Proof. exact frame_fixed3_loc. Qed.
+Print Assumptions C08_fixed3_frame_loc.
+
+Theorem C08_fixed3_brackets_restore :
+  forall (p : parser) (o : op) (s : st) (x : nat), s_g (out_st (run_op_fixed3 p o s)) x = s_g s x.
+Proof. exact brackets_restore_fixed3. Qed.
+Print Assumptions C08_fixed3_brackets_restore.
+
+(* finding on the current tree: p.add_class_arguments(Unit, "u"); cfg = Namespace(); p.instantiate_classes(cfg)
+   returns cfg itself, now holding u=<Unit object>; the repaired model leaves it empty and returns a new namespace *)
+Definition u_ : str := [117]%N.
+Theorem C08_instantiate_empty_config_refuted :
+  exists p h0 o, groups_guard h0 o = false /\ guard_class p h0 o = 4%N
+                 /\ firstn (length h0) (s_h (out_st (run_op_fixed p o (mkst h0 g0)))) <> h0
+                 /\ firstn (length h0) (s_h (out_st (run_op_fixed3 p o (mkst h0 g0)))) = h0.
+Proof. exists [], [CNs []], (OInstantiateGroups (VRef 0) [u_]). vm_compute. repeat split; congruence. Qed.
+Print Assumptions C08_instantiate_empty_config_refuted.
+
+(* the guard is satisfiable by the ordinary use: a non-empty configuration on a parser with two groups, and an empty
+   one on a parser without groups; both succeed and leave the caller's objects alone *)
+Example C08_groups_guard_satisfiable :
+  groups_guard [CNs [(k_, VRef 1)]; CList [VStr s1]] (OInstantiateGroups (VRef 0) [u_; [118]%N]) = true
+  /\ is_ok (run_op_fixed [{| d_key := k_; d_ty := TList TInt; d_dflt := VNone |}]
+                         (OInstantiateGroups (VRef 0) [u_; [118]%N]) (mkst [CNs [(k_, VRef 1)]; CList [VStr s1]] g0)) = true
+  /\ groups_guard [CNs []] (OInstantiateGroups (VRef 0) []) = true.
+Proof. vm_compute. repeat split; reflexivity. Qed.
 
 Theorem C08_fixed_brackets_restore :
   forall (p : parser) (o : op) (s : st) (x : nat), s_g (out_st (run_op_fixed p o s)) x = s_g s x.
@@ -144,7 +189,6 @@ Print Assumptions C08_fixed_defaults_untouched.
    calls still succeed / fail as before, and get_defaults shares nothing *)
 Definition changed_fixed (p : parser) (h0 : heap) (o : op) : bool :=
   negb (list_eqb oval_eqb (view_old (length h0) (s_h (out_st (run_op_fixed p o (mkst h0 g0))))) (snapshot0 h0)).
-Definition is_ok {A} (r : out A) : bool := match r with Ok _ _ => true | Err _ _ => false end.
 Example C08_fixed_witnesses_repaired :
   changed_fixed po_parser po_heap (OParseObject (VRef 0)) = false
   /\ is_ok (run_op_fixed po_parser (OParseObject (VRef 0)) (mkst po_heap g0)) = true
